@@ -20,6 +20,9 @@
  *   M <id>                   whole caller buffer + "ok"/"BAD" for the guard regions
  *   B <id>                   buffer length as the library sees it (internal: growth)
  *   X <id>                   call the code buffer as a function, print rax in hex (oracle runs only)
+ *   R <id> <path> <content>  asm_assemble_file (the model reads <content>: hex, "-" empty, "missing")
+ *   U <id> <c> <path> <content> <d>   asm_assemble_file_counting_chunks
+ *   W <id> <path> <ok|bad>   asm_create_bin_file -> "<rc> <hex of the file | nofile>" (the file is removed)
  *   F <id>                   asm_destroy_instance
  * Text is hex-encoded ("-" = empty) so that any byte except NUL can be sent.
  */
@@ -191,6 +194,39 @@ int main(void) {
       if (d) printf("%d %d %d\n", rc, asm_get_offset(inst[id]), dest);
       else printf("%d %d -\n", rc, asm_get_offset(inst[id]));
       free(txt);
+      break;
+    }
+    case 'R': { /* R <id> <path> <content|missing>: asm_assemble_file (the model gets the content, the library the path) */
+      char *path = strtok_r(NULL, " ", &save);
+      if (!raw[id]) block_behind(inst[id]);
+      int rc = asm_assemble_file(inst[id], path);
+      printf("%d %d\n", rc, asm_get_offset(inst[id]));
+      break;
+    }
+    case 'U': { /* U <id> <c> <path> <content|missing> <d>: asm_assemble_file_counting_chunks */
+      int c = atoi(strtok_r(NULL, " ", &save));
+      char *path = strtok_r(NULL, " ", &save);
+      strtok_r(NULL, " ", &save);
+      int d = atoi(strtok_r(NULL, " ", &save));
+      int dest = -777;
+      if (!raw[id]) block_behind(inst[id]);
+      int rc = asm_assemble_file_counting_chunks(inst[id], path, c, d ? &dest : NULL);
+      if (d) printf("%d %d %d\n", rc, asm_get_offset(inst[id]), dest);
+      else printf("%d %d -\n", rc, asm_get_offset(inst[id]));
+      break;
+    }
+    case 'W': { /* W <id> <path> <ok|bad>: asm_create_bin_file, then the file's contents */
+      char *path = strtok_r(NULL, " ", &save);
+      int rc = asm_create_bin_file(inst[id], path);
+      printf("%d ", rc);
+      FILE *f = fopen(path, "rb");
+      if (!f) { puts("nofile"); break; }
+      static uint8_t fb[1 << 16];
+      size_t g = fread(fb, 1, sizeof fb, f);
+      fclose(f);
+      remove(path);
+      puthex(fb, (long)g);
+      putchar('\n');
       break;
     }
     case 'G':
